@@ -572,6 +572,54 @@ static void op_dict_rt(const VhLine *l) {
 }
 
 /* ------------------------------------------------------------------ RLE */
+/* rle.cap cap=<hex> hdr=<0|1> total=<hex> <len1> <val1> <len2> <val2> ... : a HOSTILE run-length stream (any run
+ * lengths, also 0 and values close to 2^64; with hdr=1 preceded by the declared total) followed by an end marker,
+ * decoded into an output block of exactly `cap` elements (ASan) - whatever the stream declares, at most `cap`
+ * elements may be written (C13) */
+static void op_rle_cap(const VhLine *l) {
+    size_t cap = (size_t)p_u64(kw(l, "cap"));
+    int hdr = kw(l, "hdr") ? (int)p_u64(kw(l, "hdr")) : 0;
+    uint64_t total = kw(l, "total") ? p_u64(kw(l, "total")) : 0;
+    int first = 1;
+    while (first < l->n && strchr(l->tok[first], '=')) {
+        first++;
+    }
+    int pairs = (l->n - first) / 2;
+    uint8_t *enc = calloc(1, (size_t)pairs * 18 + 64);
+    size_t n = 0;
+    if (hdr) {
+        n += varintTaggedPut64(enc + n, total);
+    }
+    for (int i = 0; i < pairs; i++) {
+        n += varintTaggedPut64(enc + n, p_u64(l->tok[first + 2 * i]));
+        n += varintTaggedPut64(enc + n, p_u64(l->tok[first + 2 * i + 1]));
+    }
+    /* the zero padding is the end marker (run length 0) */
+    uint64_t *o = malloc(cap ? cap * sizeof(uint64_t) : 1);
+    for (size_t i = 0; i < cap; i++) {
+        o[i] = 0xDDDDDDDDDDDDDDDDULL;
+    }
+    size_t r = hdr ? varintRLEDecodeWithHeader(enc, o, cap) : varintRLEDecode(enc, o, cap);
+    out("n=%zu v=", r);
+    for (size_t i = 0; i < r && i < cap && i < 12; i++) {
+        out("%" PRIx64, o[i]);
+    }
+    if (r > 0 && r <= cap) {
+        out("last=%" PRIx64, o[r - 1]);
+    }
+    if (r > cap) {
+        mon("C13", "RLE%s decoder reports %zu elements for a capacity of %zu", hdr ? " (header)" : "", r, cap);
+    }
+    for (size_t i = r; i < cap; i++) {
+        if (o[i] != 0xDDDDDDDDDDDDDDDDULL) {
+            mon("C13", "RLE%s decoder returned %zu but modified output element %zu", hdr ? " (header)" : "", r, i);
+            break;
+        }
+    }
+    free(o);
+    free(enc);
+}
+
 static void op_rle_rt(const VhLine *l) {
     bool hdr = strncmp(arg(l, 0), "rleh", 4) == 0;
     const char *nm = hdr ? "RLEheader" : "RLE";
@@ -829,6 +877,6 @@ static void op_bp_rt(const VhLine *l) {
 const VhOp vh_array_ops[] = {{"delta.rt", op_delta_rt},   {"deltau.rt", op_delta_rt}, {"zigzag", op_zigzag},
                              {"for.rt", op_for_rt},       {"forb.rt", op_for_rt},     {"pfor.rt", op_pfor_rt},
                              {"group.rt", op_group_rt},   {"dict.rt", op_dict_rt},    {"rle.rt", op_rle_rt},
-                             {"rleh.rt", op_rle_rt},      {"egamma.rt", op_elias_rt}, {"edelta.rt", op_elias_rt},
+                             {"rleh.rt", op_rle_rt},      {"rle.cap", op_rle_cap},      {"egamma.rt", op_elias_rt}, {"edelta.rt", op_elias_rt},
                              {"bp32.rt", op_bp_rt},       {"bp64.rt", op_bp_rt},      {"bpd32.rt", op_bp_rt},
                              {"bpd64.rt", op_bp_rt},      {NULL, NULL}};
